@@ -1,6 +1,7 @@
 import PGA.Drv.C05
 /-! Driver ops for C06.
 `c06.est`: {"cors": [[<spec>, count], ...], "T": rat, "want": [...]} ↦ {"mk": "ok" | <err> | "constituent:<err>", "range": ..., "cp"/"h"/"s"/"g": out}
+`c06.raw_set_range`: {"cor": <raw spec>, "newrange": [lo, hi], "T": rat, "want": [...]} ↦ {"mk", "set": "ok" | <err>, "range", outs}
 `c06.range`: {"ranges": [null | [lo, hi], ...]} ↦ {"range": null | [lo, hi], "accepted": bool}  (the fold of group_data.py:49-77 alone) -/
 namespace PGA.Drv.C06
 open Lean PGA.Drv PGA.Thermo PGA.Drv.C05
@@ -38,6 +39,30 @@ def handle (op : String) (j : Json) : Option (Except String Json) :=
           pure <| Json.mkObj ([("mk", Json.str "ok"), ("range", jrange e.range)] ++ want.map fun w => (w, jout (f e w)))
         | _, _ => throw "construction depends on oracle values"
       | _, _ => throw "construction depends on oracle values"
+  | "c06.raw_set_range" => some do
+      -- {"cor": <raw spec>, "newrange": [lo, hi], "T": rat, "want": [...]} ↦ {"mk", "set": "ok" | <err>, "range", outs}:
+      -- the table correlation is constructed, its range is changed with `set_range`, then the getters are asked
+      let s ← getSpec (← j.getObjVal? "cor")
+      let T ← rat j "T"
+      let want ← wantList j
+      let nr ← match ← optRange j "newrange" with
+        | some r => pure r
+        | none => throw "newrange must be [lo, hi]"
+      match s.href, s.sref with
+      | some h, some sr =>
+        match RawData.mk (s.oracle.interp 0) h sr s.pts s.tref s.range, RawData.mk (s.oracle.interp 1) h sr s.pts s.tref s.range with
+        | .error e, _ => pure <| Json.mkObj [("mk", Json.str (errName e))]
+        | .ok d, .ok d' =>
+          let (st, a, a') : String × RawData × RawData :=
+            match d.setRange nr, d'.setRange nr with
+            | .ok x, .ok x' => ("ok", x, x')
+            | .error e, _ => (errName e, d, d')
+            | _, .error e => (errName e, d, d')
+          agree want (rawFns a T) (rawFns a' T)
+          pure <| Json.mkObj ([("mk", Json.str "ok"), ("set", Json.str st), ("range", jrange (some a.range))] ++
+                              want.map fun w => (w, jout (rawFns a T w)))
+        | _, _ => throw "construction depends on oracle values"
+      | _, _ => throw "raw correlation needs href and sref"
   | "c06.range" => some do
       let a ← arr j "ranges"
       let rs ← a.toList.mapM fun e => match e with
